@@ -1360,10 +1360,11 @@ func codecParallel(n, workers int, f func(i int)) {
 					return
 				}
 				f(i)
+				guardProgress.Add(1)
 			}
 		}()
 	}
-	wg.Wait()
+	guardedWait(&wg)
 }
 
 // codecCounts is a goroutine-local counter set flushed into the run at once.
